@@ -170,6 +170,7 @@ def make_conn_class():
 
         def push(self, data):
             self.h.pushed += 1
+            self.h._on_push(self)
 
         def close(self):
             # the pattern shared by every reactor's close() (asyncore, libev, asyncio, twisted, gevent, eventlet);
@@ -447,6 +448,26 @@ class Harness(object):
                 finally:
                     self.send_hook = sh
 
+    def _on_push(self, conn):
+        """the message is on the wire: the node may answer before the sending thread executes its next statement"""
+        sh = self.send_hook
+        if sh is None or not sh['nested_push'] or self.atomic_send or self.pm is not None or conn.lock._is_owned():
+            return
+        i, tok = sh['id'], sh['tok']
+        if i in conn.__dict__['_requests_real']:
+            sh['reg_emitted'] = True          # send_msg registered the handler before it pushed (the order the model assumes)
+            self.emit('SendReg %d %d' % (i, tok))
+            self.event([0, i, tok])
+        sh['on_wire'] = True
+        self.wire.append((i, tok))
+        self.tokens.setdefault(tok, {})['id'] = i
+        self.checkpoint()
+        self.send_hook = None
+        try:
+            self.nested(sh['nested_push'])
+        finally:
+            self.send_hook = sh
+
     def _on_inflight_read(self, conn):
         ih, self.inflight_hook = self.inflight_hook, None
         if conn.lock._is_owned():
@@ -499,8 +520,10 @@ class Harness(object):
         wrapped = self.make_cb(tok, cb, nested_cb)
         if self.atomic_send or self.getid_site == 'set_keyspace_async':
             self.event([8, request_id])
-        sh = {'id': request_id, 'done': False, 'nested': self.next_nested_send or [], 'check_emitted': False}
+        sh = {'id': request_id, 'tok': tok, 'done': False, 'nested': self.next_nested_send or [], 'check_emitted': False,
+              'nested_push': self.next_nested_push or [], 'reg_emitted': False, 'on_wire': False}
         self.next_nested_send = None
+        self.next_nested_push = None
         self.send_hook = sh
         self.held.pop(tok, None)
         try:
@@ -529,14 +552,17 @@ class Harness(object):
                 self.nonbenign = True
             raise
         self.send_hook = None
-        if not self.atomic_send:
-            self.emit('SendReg %d %d' % (request_id, tok))
-        self.event([0, request_id, tok])
-        self.wire.append((request_id, tok))
+        if not sh['reg_emitted']:
+            if not self.atomic_send:
+                self.emit('SendReg %d %d' % (request_id, tok))
+            self.event([0, request_id, tok])
+        if not sh['on_wire']:
+            self.wire.append((request_id, tok))
         self.tokens.setdefault(tok, {})['id'] = request_id
         return n
 
     next_nested_cb = None
+    next_nested_push = None
     busy_pending = None
     answering = None
     next_nested_send = None
@@ -658,6 +684,7 @@ class Harness(object):
         self.tokens[r] = {'fut': rf, 'kind': 'query'}
         self._arm_borrow(r)
         self.next_token, self.next_nested_cb, self.next_nested_send = r, a.get('in_cb'), a.get('after_check')
+        self.next_nested_push = a.get('at_push')
         inner = lambda resp: None
         self.in_query = True
         try:
@@ -665,7 +692,7 @@ class Harness(object):
         finally:
             self.in_query = False
         self._disarm_borrow(r, sent=rid is not None)
-        rf._req_id = rid
+        # rf._req_id is whatever the REAL _query left there (nothing is set by the harness)
         self.next_token = None
         self.checkpoint()
 
